@@ -325,6 +325,20 @@ def check_table(ctx, case):
         if before != after:
             ctx.fail('refused-update-changed-the-data', '[%s] data before %s, after the refused update %s' % (name, before, after))
             continue
+        # a copy is a correlation of its own: new reference values for the copy (same table, same range) leave the original's answers
+        try:
+            twin = obj.copy()
+            twin.update(m['Group'](H + 3.5, S - 1.25, {}, T_ref, None), overwrite=True)
+            ctx.count()
+            ctx.event('copy-revised')
+            if not (close(twin.get_HoRT(T_ref), H + 3.5, 1e-9 * max(1.0, abs(H) + 3.5)) and close(obj.get_HoRT(T_ref), H, 1e-12 * max(1.0, abs(H)))
+                    and close(obj.get_SoR(T_ref), S, 1e-12 * max(1.0, abs(S)))):
+                ctx.fail('original-changed-through-its-copy', '[%s] copy given H_ref+3.5, S_ref-1.25: copy HoRT(T_ref)=%r, original HoRT(T_ref)=%r (H_ref %r), SoR(T_ref)=%r (S_ref %r)'
+                         % (name, twin.get_HoRT(T_ref), obj.get_HoRT(T_ref), H, obj.get_SoR(T_ref), S))
+                continue
+        except Exception as e:
+            ctx.fail('copy-update-raises:%s' % type(e).__name__, '[%s] copy().update(new reference values, overwrite=True) raised %s: %s' % (name, type(e).__name__, e))
+            continue
         bad = [(T, cp, obj.get_CpoR(T)) for T, cp in sorted(obj.ND_Cp_data.items()) if not close(obj.get_CpoR(T), cp, 1e-9 * max(1.0, abs(cp)))]
         if bad or not close(obj.get_HoRT(T_ref), H, 1e-12 * max(1.0, abs(H))) or any(
                 not close(obj.get_CpoR(T), allres[name][2][T], 1e-12 * max(1.0, abs(allres[name][2][T]))) for T in pts):
